@@ -201,6 +201,10 @@ cdef class DefaultRecordBatch:
         cdef:
             char* buf
 
+        if self._buffer.len < FIRST_RECORD_OFFSET:
+            raise CorruptRecordException(
+                "Record batch is smaller than the v2 batch header "
+                "({} < {})".format(self._buffer.len, FIRST_RECORD_OFFSET))
         buf = <char*> self._buffer.buf
         self.base_offset = hton.unpack_int64(&buf[BASE_OFFSET_OFFSET])
         self.length = hton.unpack_int32(&buf[LENGTH_OFFSET])
@@ -255,7 +259,8 @@ cdef class DefaultRecordBatch:
             self, Py_ssize_t pos, Py_ssize_t size) except -1:
         """ Confirm that the slice is not outside buffer range
         """
-        if pos + size > self._buffer.len:
+        # NOTE: `size` is untrusted: it may be negative or overflow `pos + size`
+        if size < 0 or size > self._buffer.len - pos:
             raise CorruptRecordException(
                 "Can't read {} bytes from pos {}".format(size, pos))
 
